@@ -43,7 +43,14 @@ def _frac(x):
     if isinstance(x, float):
         if math.isnan(x) or math.isinf(x):
             raise Unsupported("nan/inf constant in symbolic arithmetic")
-        return Fraction(x)
+        q = Fraction(x)
+        # "floats as reals": a float literal within one ulp of a small rational (1/3, 0.1, 1/6 ...)
+        # denotes that rational; anything else (pi, sqrt(2), data) keeps its exact binary value
+        if q.denominator > 2**20:
+            r = q.limit_denominator(10**6)
+            if abs(r - q) <= abs(q) * Fraction(3, 10**16):
+                return r
+        return q
     try:
         import numpy as np
         if isinstance(x, np.integer):
@@ -873,3 +880,76 @@ def evaluate(context: Ctx, parts, assignment: dict):
         subs.append((sym, _z(_frac(x))))
         val[sym] = x
     return [ev(p) for p in parts]
+
+
+# ----------------------------------------------------------------------------------------- differentiation
+def diff_term(t, wrt: dict, memo=None):
+    """d t / d u for a z3 real term t built from + - * / and integer powers, where `wrt` maps the
+    id of a z3 constant to its derivative (a z3 term or Fraction): plain variables have
+    derivative 1/0, the (cos, sin) atoms of an angle have (-sin, cos)."""
+    memo = {} if memo is None else memo
+    i = t.get_id()
+    if i in memo:
+        return memo[i]
+    if i in wrt:
+        r = wrt[i]
+    elif z3.is_rational_value(t) or z3.is_int_value(t) or z3.is_algebraic_value(t):
+        r = Fraction(0)
+    elif z3.is_const(t):
+        r = Fraction(0)
+    else:
+        k = t.decl().kind()
+        ch = t.children()
+        if k == z3.Z3_OP_ADD:
+            r = Fraction(0)
+            for c in ch:
+                r = _add(r, diff_term(c, wrt, memo))
+        elif k == z3.Z3_OP_SUB:
+            r = diff_term(ch[0], wrt, memo)
+            for c in ch[1:]:
+                r = _sub(r, diff_term(c, wrt, memo))
+        elif k == z3.Z3_OP_UMINUS:
+            r = _neg(diff_term(ch[0], wrt, memo))
+        elif k == z3.Z3_OP_MUL:
+            r = Fraction(0)
+            for j, c in enumerate(ch):
+                d = diff_term(c, wrt, memo)
+                if _is_const(d) and d == 0:
+                    continue
+                term = d
+                for j2, c2 in enumerate(ch):
+                    if j2 != j:
+                        term = _mul(term, c2)
+                r = _add(r, term)
+        elif k == z3.Z3_OP_DIV:
+            a, b = ch
+            da, db = diff_term(a, wrt, memo), diff_term(b, wrt, memo)
+            if _is_const(db) and db == 0:
+                r = _div(da, b)
+            else:
+                r = _div(_sub(_mul(da, b), _mul(a, db)), _mul(b, b))
+        elif k == z3.Z3_OP_POWER and (z3.is_int_value(ch[1]) or z3.is_rational_value(ch[1])):
+            n = _q(ch[1])
+            r = _mul(_mul(n, ch[0] ** _z(n - 1)), diff_term(ch[0], wrt, memo))
+        else:
+            raise Unsupported(f"differentiation of {str(t)[:60]}")
+    memo[i] = r
+    return r
+
+
+def diff_S(x: S, wrt: dict) -> S:
+    x = to_S(x)
+    re = Fraction(0) if _is_const(x.re) else diff_term(x.re, wrt)
+    im = Fraction(0) if _is_const(x.im) else diff_term(x.im, wrt)
+    return S(re, im)
+
+
+def wrt_var(sym: S):
+    """derivative map for a plain real input"""
+    return {_z(sym.re).get_id(): Fraction(1)}
+
+
+def wrt_angle(context: Ctx, sym: S):
+    """derivative map for an angle atom a (unit u): d cos(u a)/da = -u sin, d sin(u a)/da = u cos"""
+    v, unit, c, s = context.angles[_z(sym.re).get_id()]
+    return {c.get_id(): _mul(-unit, s), s.get_id(): _mul(unit, c), v.get_id(): Fraction(1)}
